@@ -74,7 +74,14 @@ func checkShape(prop string, o *Outcome) []Violation {
 	return vs
 }
 
-// history: which stream bytes were judged.
+// history: which stream bytes were judged. Only what the properties state is
+// demanded: a sample-sized (or recognisably corrupted) buffer that is not an
+// aligned stream sample was judged instead of fresh consecutive stream bytes;
+// a TRUE verdict needs every judged item to have seen every one of the s
+// samples before it was returned. A false verdict may legitimately be
+// returned early (the remaining samples cannot change it), tests may be run
+// more than once, and buffers of other sizes (say a known-answer self-test)
+// are none of this oracle's business.
 func checkHistory(prop string, o *Outcome, items int) []Violation {
 	var vs []Violation
 	wi := Info(o.Cfg.Workflow)
@@ -86,6 +93,10 @@ func checkHistory(prop string, o *Outcome, items int) []Violation {
 			return nil
 		}
 		if c.Sample == -1 {
+			if c.Len != wi.SampleBytes && c.Diff == 0 {
+				// neither sample-sized nor starting like a stream sample
+				continue
+			}
 			if foreign == 0 {
 				firstForeign = c
 			}
@@ -97,20 +108,19 @@ func checkHistory(prop string, o *Outcome, items int) []Violation {
 	if foreign > 0 {
 		vs = append(vs, v(prop, "foreign-buffer", "%d runner calls were handed a buffer that is not a sample of the stream (first: item %d, len %d, first differing offset %d)", foreign, firstForeign.Item, firstForeign.Len, firstForeign.Diff))
 	}
-	if !o.Returned || len(o.Calls) == 0 {
+	if !o.Returned || len(o.Calls) == 0 || !o.Verdict {
 		return vs
 	}
 	if o.CallsAtReturn >= 0 && o.CallsAtReturn < len(o.Calls) {
-		// a test ran on a sample after the verdict had been returned: that
+		// a test ran on a sample after the verdict TRUE had been returned: that
 		// sample cannot have been part of the judgement
 		late := o.Calls[o.CallsAtReturn]
-		vs = append(vs, v(prop, "late-judgement", "%d runner calls happened after the workflow had returned its verdict (first: item %d on sample %d)", len(o.Calls)-o.CallsAtReturn, late.Item, late.Sample))
+		vs = append(vs, v(prop, "late-judgement", "%d runner calls happened after the workflow had returned true (first: item %d on sample %d)", len(o.Calls)-o.CallsAtReturn, late.Item, late.Sample))
 	}
 	for it := 0; it < items; it++ {
 		for k := 0; k < wi.Samples; k++ {
-			n := seen[[2]int{it, k}]
-			if n != 1 {
-				vs = append(vs, v(prop, "sample-accounting", "item %d judged sample %d %d times (want exactly once)", it, k, n))
+			if seen[[2]int{it, k}] == 0 {
+				vs = append(vs, v(prop, "sample-accounting", "verdict true although item %d never judged sample %d", it, k))
 				return vs
 			}
 		}
@@ -201,8 +211,9 @@ func OracleC07(o, twin *Outcome) []Violation {
 	vs = append(vs, checkShape(P, o)...)
 	vs = append(vs, checkDecision(P, o, wi.Items)...)
 	vs = append(vs, checkHistory(P, o, wi.Items)...)
-	if o.Returned && o.Src.Delivered >= 0 && o.Src.Delivered < o.Cfg.Required() {
-		vs = append(vs, v(P, "under-read", "workflow returned after consuming %d bytes, %d are required", o.Src.Delivered, o.Cfg.Required()))
+	if o.Returned && o.Verdict && o.Src.Delivered >= 0 && o.Src.Delivered < o.Cfg.Required() {
+		// (a false verdict may be returned before the last sample was read)
+		vs = append(vs, v(P, "under-read", "workflow returned true after consuming %d bytes, %d are required", o.Src.Delivered, o.Cfg.Required()))
 	}
 	if twin != nil && o.Returned {
 		if !twin.Returned || twin.Verdict != o.Verdict || twin.Err != o.Err {
